@@ -174,6 +174,9 @@ class SimSemLock:
 
     def release(self):
         s = RT.sched
+        cur_ = s.cur()
+        if s.teardown or (cur_ is not None and cur_.killed):
+            raise sk.SimKilled()          # unwinding: no effect, no secondary errors
         if self.kind == 0:
             if not self._is_mine():
                 raise AssertionError("attempt to release recursive lock not owned by thread")
